@@ -17,3 +17,12 @@ Fixpoint apply_events (im : image) (evs : list dev_event) : image :=
   | DWrite off bs :: r => apply_events (img_write im off bs) r
   | DFlush :: r => apply_events im r
   end.
+
+(* a write-back cache that honours flush: [cur] is what reads see, [dur] what survives a power cut; a write changes
+   [cur] only, a device flush makes [cur] durable *)
+Fixpoint cache_run (cur dur : image) (evs : list dev_event) : image * image :=
+  match evs with
+  | [] => (cur, dur)
+  | DWrite off bs :: r => cache_run (img_write cur off bs) dur r
+  | DFlush :: r => cache_run cur cur r
+  end.
